@@ -4,6 +4,7 @@ import (
 	"fmt"
 	"go/token"
 	"go/types"
+	"strings"
 
 	"golang.org/x/tools/go/ssa"
 )
@@ -43,8 +44,45 @@ func deadlineDerived(cx *Ctx, v ssa.Value, seen map[ssa.Value]bool) bool {
 	return false
 }
 
+// isTimeLoad: v is the wheel time - a load of Variable.time, or a parameter that receives it at every call site
+// (a helper that takes the current wheel time from its caller).
 func isTimeLoad(v ssa.Value, timeF *types.Var) bool {
-	return sameField(fieldOf(v), timeF) && stripLoad(v) != v
+	return isWheelTime(v, timeF, 0)
+}
+
+var wheelTimeProg *Program
+
+func isWheelTime(v ssa.Value, timeF *types.Var, depth int) bool {
+	v = stripConv(v)
+	if sameField(fieldOf(v), timeF) && stripLoad(v) != v {
+		return true
+	}
+	p, ok := v.(*ssa.Parameter)
+	if !ok || depth > 2 || wheelTimeProg == nil {
+		return false
+	}
+	fn := p.Parent()
+	idx := -1
+	for i, q := range fn.Params {
+		if q == p {
+			idx = i
+		}
+	}
+	sites := 0
+	all := true
+	for _, g := range wheelTimeProg.FuncsOfPkg(expPkg) {
+		allInstrs(g, func(in ssa.Instruction) {
+			cc := callCommon(in)
+			if cc == nil || cc.IsInvoke() || cc.StaticCallee() == nil || origin(cc.StaticCallee()) != origin(fn) || idx >= len(cc.Args) {
+				return
+			}
+			sites++
+			if !isWheelTime(cc.Args[idx], timeF, depth+1) {
+				all = false
+			}
+		})
+	}
+	return sites > 0 && all
 }
 
 func ruleC13Clamp(cx *Ctx) {
@@ -54,6 +92,7 @@ func ruleC13Clamp(cx *Ctx) {
 	if timeF == nil {
 		return
 	}
+	wheelTimeProg = cx.P
 	n := 0
 	for _, fn := range cx.P.FuncsOfPkg(expPkg) {
 		name := funcName(fn)
@@ -122,101 +161,121 @@ func ruleC13NoDrop(cx *Ctx) {
 	cx.R.Rule(rule, 1, "the sweep hands each unlinked timer to exactly one of {expire callback, re-Add}; it expires only on deadline < wheel time and passes that wheel time to the callback")
 	add := cx.need(rule, expPkg, "Variable", "Add")
 	timeF := cx.needField(rule, expPkg, "Variable", "time")
-	if add == nil || timeF == nil {
+	de := cx.need(rule, expPkg, "Variable", "DeleteExpired")
+	if add == nil || timeF == nil || de == nil {
 		return
 	}
-	// the sweep body is wherever a timer is unlinked (SetNextExp(nil)) next to a call of a callback parameter: it
-	// may live in deleteExpiredFromBucket or in a helper extracted from it
-	var fn *ssa.Function
-	var unlink *ssa.Call
+	// path summaries of the whole sweep (helpers and their loops inlined, Add summarised): decided on the event
+	// trace, so the sweep may be one function or a pipeline of helpers
+	ps := newPathSum(cx)
+	ps.inlinePkgs = map[string]bool{pkgPath(expPkg): true}
+	ps.alsoRelevant = []string{"ExpiresAt("}
 	for _, f := range cx.P.FuncsOfPkg(expPkg) {
-		if len(f.Params) == 0 {
+		if f.Parent() == nil && origin(f) != origin(add) {
+			ps.inlineLoops[origin(f)] = true
+		}
+	}
+	// entry: the innermost function that takes the expire callback and unlinks timers itself (SetNextExp(nil)); the
+	// hand-over may sit in helpers below it, which are inlined
+	var entry *ssa.Function
+	var cb *ssa.Parameter
+	for _, f := range cx.P.FuncsOfPkg(expPkg) {
+		if f.Parent() != nil {
 			continue
 		}
-		hasCB := false
+		var p2 *ssa.Parameter
 		for _, p := range f.Params {
 			if sig, ok := p.Type().Underlying().(*types.Signature); ok && sig.Params().Len() == 2 {
-				hasCB = true
+				p2 = p
 			}
 		}
-		if !hasCB {
+		if p2 == nil {
 			continue
 		}
 		allInstrs(f, func(in ssa.Instruction) {
 			if c, ok := in.(*ssa.Call); ok && invokeName(c) == "SetNextExp" && isNilConst(c.Call.Args[0]) {
-				fn, unlink = f, c
+				entry, cb = f, p2
 			}
 		})
 	}
-	if fn == nil {
+	if entry == nil {
 		cx.R.Violate(rule, "expiration", "unlink", "-", "NOT SATISFIED: no sweep function unlinks timers (SetNextExp(nil)) and hands them to a callback")
 		return
 	}
-	name := funcName(fn)
-	var cb *ssa.Parameter
-	for _, p := range fn.Params {
-		if sig, ok := p.Type().Underlying().(*types.Signature); ok && sig.Params().Len() == 2 {
-			cb = p
-		}
+	_ = de
+	outs := ps.Run(entry, nil)
+	cx.R.AddInt("paths_enumerated", len(outs))
+	if ps.capped {
+		cx.R.Undecided(rule, funcName(entry), "path cap", cx.P.Pos(entry.Pos()), "path enumeration exceeded its bound")
+		return
 	}
-	n := unlink.Call.Value
-	isEvent := func(in ssa.Instruction) int {
-		cc := callCommon(in)
-		if cc == nil {
-			return 0
+	name := funcName(entry)
+	a := newAgg(cx, rule, name, cx.P.Pos(entry.Pos()))
+	recv := "param:" + pname(entry.Params[0])
+	timeT := "load(" + recv + "." + fname(timeF) + ")"
+	cbName := pname(cb)
+	timers := 0
+	for _, o := range outs {
+		if o.Panic {
+			continue
 		}
-		if !cc.IsInvoke() && cc.Value == ssa.Value(cb) && len(cc.Args) > 0 && cc.Args[0] == n {
-			return 1
-		}
-		if isCallTo(in, add) {
-			if a := callArgs(in); len(a) == 1 && a[0] == n {
-				return 1
+		// the wheel time in force during the sweep is the one stored at the start (a cell): resolve its value
+		timeVal := timeT
+		for _, e := range o.S.trace {
+			if e.Kind == "FieldStore" && e.Args[0] == recv+"."+fname(timeF) {
+				timeVal = e.Args[1]
 			}
 		}
-		return 0
-	}
-	// from the unlink to the head of the inner loop (the block defining n, a phi)
-	stop := func(b *ssa.BasicBlock) bool {
-		if ph, ok := n.(*ssa.Phi); ok {
-			return b == ph.Block()
-		}
-		return false
-	}
-	p := ptOf(unlink)
-	p.I++
-	exits := CountUntil(fn, p, isEvent, nil, stop)
-	if len(exits) == 0 {
-		cx.R.Undecided(rule, name, "iteration", cx.P.where(unlink), "cannot delimit one iteration of the timer loop")
-	}
-	for _, e := range exits {
-		cx.R.Check(e.Count == 1, rule, name, fmt.Sprintf("iteration exit with %d hand-over(s)", e.Count), cx.P.where(unlink),
-			"each unlinked timer is expired or re-added exactly once before the next timer is visited", e.Witness...)
-	}
-	// predicate and argument of the expire callback
-	allInstrs(fn, func(in ssa.Instruction) {
-		cc := callCommon(in)
-		if cc == nil || cc.IsInvoke() || cc.Value != ssa.Value(cb) {
-			return
-		}
-		pred := false
-		for _, g := range guardsAt(in.Block()) {
-			c, ok := g.Cond.(*ssa.BinOp)
-			if !ok {
-				continue
-			}
-			x := stripConv(c.X)
-			if call, isCall := x.(*ssa.Call); isCall && invokeName(call) == "ExpiresAt" && call.Call.Value == cc.Args[0] && isTimeLoad(c.Y, timeF) {
-				if (c.Op == token.LSS && g.Truth) || (c.Op == token.GEQ && !g.Truth) {
-					pred = true
-				}
-				if c.Op == token.LEQ && g.Truth {
-					pred = true // <= also implies the callback's own HasExpired (<=)
+		unlinked := map[string]int{} // node -> index of its unlinking
+		var order []string
+		for i, e := range o.S.trace {
+			if e.Kind == "NodeLink" && e.Args[1] == "SetNextExp" && e.Args[2] == "nil" {
+				if _, seen := unlinked[e.Args[0]]; !seen {
+					unlinked[e.Args[0]] = i
+					order = append(order, e.Args[0])
 				}
 			}
 		}
-		cx.R.Check(pred, rule, name, "expire predicate", cx.P.where(in), "the expire callback runs only for deadline < wheel time (so the callback's HasExpired(wheelTime) holds and the cause is Expiration)")
-		cx.R.Check(len(cc.Args) == 2 && isTimeLoad(stripConv(cc.Args[1]), timeF), rule, name, "expire time argument", cx.P.where(in), "the callback receives the wheel time the predicate was evaluated against")
-	})
+		for _, x := range order {
+			timers++
+			exp, readd := 0, 0
+			var expEv psEvent
+			for i, e := range o.S.trace {
+				if i < unlinked[x] {
+					continue
+				}
+				if e.Kind == "UserCall" && e.Args[0] == cbName && len(e.Args) > 2 && e.Args[2] == x {
+					exp++
+					expEv = e
+				}
+				if e.Kind == "ExpAdd" && e.Args[0] == x {
+					readd++
+				}
+			}
+			a.check("each unlinked timer handed over exactly once", exp+readd == 1, "each unlinked timer is expired or re-added exactly once", fmt.Sprintf("%s: %d expire, %d re-add", x, exp, readd), o)
+			due, known := false, false
+			for atom, v := range o.S.preds {
+				if strings.HasPrefix(atom, "(ExpiresAt("+x+")<") {
+					due, known = v, true
+				}
+				if strings.HasPrefix(atom, "(ExpiresAt("+x+")>=") {
+					due, known = !v, true
+				}
+				if strings.HasPrefix(atom, "(ExpiresAt("+x+")<=") && v {
+					due, known = true, true // <= also implies the callback's own HasExpired (<=)
+				}
+			}
+			if exp == 1 {
+				a.check("expire predicate", known && due, "the expire callback runs only for deadline < wheel time (so the callback's HasExpired(wheelTime) holds and the cause is Expiration)", "predicate known="+fmt.Sprint(known), o)
+				a.check("expire time argument", len(expEv.Args) == 4 && (expEv.Args[3] == timeVal || expEv.Args[3] == timeT), "the callback receives the wheel time the predicate was evaluated against", "got "+fmt.Sprint(expEv.Args), o)
+			}
+			if readd == 1 {
+				a.check("re-add only when not due", known && !due, "a timer is put back only when its deadline is not behind the wheel time", "predicate known="+fmt.Sprint(known), o)
+			}
+		}
+	}
+	a.check("timers analysed", timers > 0, "paths that unlink timers were found (non-vacuity)", "none", nil)
+	a.flush()
 	// re-Add on the other edge is Variable.Add (which re-links via findBucket)
 	fb := cx.P.Func(expPkg, "Variable", "findBucket")
 	link := cx.P.Func(expPkg, "", "link")
@@ -232,11 +291,27 @@ func ruleC13NoDrop(cx *Ctx) {
 			}
 		})
 		if fbCall != nil && linkCall != nil {
-			a := callArgs(fbCall)
-			la := callArgs(linkCall)
-			if c, ok := stripConv(a[0]).(*ssa.Call); ok && invokeName(c) == "ExpiresAt" && c.Call.Value == ssa.Value(bparam(add, 1)) && la[0] == fbCall.(ssa.Value) && la[1] == ssa.Value(bparam(add, 1)) {
-				okAdd = true
+			var n ssa.Value
+			for _, p := range add.Params[1:] {
+				if isNodeType(p.Type()) {
+					n = p
+				}
 			}
+			fromDeadline, linksBucket, linksNode := false, false, false
+			for _, x := range callArgs(fbCall) {
+				if c, ok := stripConv(x).(*ssa.Call); ok && invokeName(c) == "ExpiresAt" && c.Call.Value == n {
+					fromDeadline = true
+				}
+			}
+			for _, x := range callArgs(linkCall) {
+				if x == fbCall.(ssa.Value) {
+					linksBucket = true
+				}
+				if x == n {
+					linksNode = true
+				}
+			}
+			okAdd = n != nil && fromDeadline && linksBucket && linksNode
 		}
 	}
 	cx.R.Check(okAdd, rule, funcName(add), "schedule", cx.P.Pos(add.Pos()), "Add links the node into the bucket chosen from its own current deadline")
@@ -273,8 +348,10 @@ func ruleC13Advance(cx *Ctx) {
 		ok := false
 		for _, g := range guardsAt(call.Block()) {
 			if x, c, isEq, okc := eqConst(g.Cond); okc && c == 0 && (isEq != g.Truth) {
-				if a := callArgs(call); len(a) >= 3 && a[2] == x {
-					ok = true
+				for _, a := range callArgs(call) {
+					if derivedFrom(a, x, 0) {
+						ok = true
+					}
 				}
 			}
 		}
@@ -511,4 +588,29 @@ func ruleC13Span(cx *Ctx) {
 	if found == 0 {
 		cx.R.Undecided(rule, "expiration", "slot loop", "-", "no loop selecting wheel[level][slot] in a sweeping function was found; the rule does not apply")
 	}
+}
+
+// derivedFrom: v is x or computed from it by arithmetic / min / max / conversion.
+func derivedFrom(v, x ssa.Value, depth int) bool {
+	if v == x {
+		return true
+	}
+	if depth > 5 {
+		return false
+	}
+	switch t := v.(type) {
+	case *ssa.BinOp:
+		return derivedFrom(t.X, x, depth+1) || derivedFrom(t.Y, x, depth+1)
+	case *ssa.Convert:
+		return derivedFrom(t.X, x, depth+1)
+	case *ssa.Call:
+		if bi, ok := t.Call.Value.(*ssa.Builtin); ok && (bi.Name() == "min" || bi.Name() == "max") {
+			for _, a := range t.Call.Args {
+				if derivedFrom(a, x, depth+1) {
+					return true
+				}
+			}
+		}
+	}
+	return false
 }
